@@ -154,10 +154,10 @@ def specs(tier):
         if s2.name == "h3_publish":
             s2.name = "h1_publish_code"
             out.append(s2)
-    out.append(Spec("h2_basic_read", build_h2(2), cfg=ic.cfg(N), unwind=N + 2, timeout=900,
+    out.append(Spec("h2_basic_read", build_h2(2), cfg=ic.cfg(N), unwind=N + 2, timeout=2700,
                     desc="real IncarnationDb::basic + code_by_address over an arbitrary multi-version memory below the reader",
                     bounds={"n": N, "addresses": A, "slots": SL}))
-    out.append(Spec("h3_roundtrip", build_h3(1), cfg=ic.cfg(2), unwind=max(A, SL) + 3, timeout=1200,
+    out.append(Spec("h3_roundtrip", build_h3(1), cfg=ic.cfg(2), unwind=max(A, SL) + 3, timeout=3600,
                     desc="publish by tx 1 (arbitrary journal account incl. code set / re-pointed / cleared), then basic() by tx 2",
                     bounds={"n": 2, "addresses": A, "slots": SL}))
     return out
